@@ -578,7 +578,7 @@ class SO3(SMPose):
 
         :seealso: :func:`spatialmath.base.transforms3d.trexp`, :func:`spatialmath.base.transformsNd.skew`
         """
-        if base.ismatrix(S, (-1, 3)) and not so3:
+        if base.ismatrix(S, (-1, 3)) and not (so3 and S.shape[0] == 3):
             return cls([base.trexp(s, check=check) for s in S], check=False)
         elif base.isvector(S, 3) or base.ismatrix(S, (3, 3)):
             return cls(base.trexp(S, check=check), check=False)
